@@ -1125,10 +1125,22 @@ func (g *Gen) backEdge(u, h *ssa.BasicBlock) {
 	li := g.loopOf[h]
 	invs := g.loopClauses(li.ord, "invariant")
 	idx := -1
+	// several back edges (continue statements): number them by block index so names are unique
+	nback, rank := 0, 0
 	for i, p := range h.Preds {
 		if p == u {
 			idx = i
 		}
+		if h.Dominates(p) {
+			nback++
+			if p.Index < u.Index {
+				rank++
+			}
+		}
+	}
+	esuf := ""
+	if nback > 1 {
+		esuf = fmtf("@edge%d", rank+1)
 	}
 	edge := g.edgeCond(u, h)
 	sub := map[ssa.Value]string{}
@@ -1144,15 +1156,15 @@ func (g *Gen) backEdge(u, h *ssa.BasicBlock) {
 			g.errorf("%s: loop %d invariant #%d (step): %v", g.fnLabel(), li.ord, k, err)
 			continue
 		}
-		g.oblige("inv-step", fmtf("%s/inv-step#loop%d.%d", g.fnLabel(), li.ord, k), implies(edge, t), c.Props, c.Text, u.Instrs[len(u.Instrs)-1].Pos())
+		g.oblige("inv-step", fmtf("%s/inv-step#loop%d.%d%s", g.fnLabel(), li.ord, k, esuf), implies(edge, t), c.Props, c.Text, u.Instrs[len(u.Instrs)-1].Pos())
 	}
 	for _, in := range h.Instrs {
 		if ph, ok := in.(*ssa.Phi); ok && ph.Comment == "rangeindex" {
-			g.oblige("inv-step", fmtf("%s/inv-step#loop%d.rangeindex", g.fnLabel(), li.ord), implies(edge, app(">=", sub[ph], "(- 1)")), nil, "rangeindex >= -1", ph.Pos())
+			g.oblige("inv-step", fmtf("%s/inv-step#loop%d.rangeindex%s", g.fnLabel(), li.ord, esuf), implies(edge, app(">=", sub[ph], "(- 1)")), nil, "rangeindex >= -1", ph.Pos())
 		}
 	}
 	for _, key := range g.loopFrameKeys(h) {
-		g.oblige("inv-step", fmtf("%s/loopframe-step#loop%d.%s", g.fnLabel(), li.ord, sym(key)),
+		g.oblige("inv-step", fmtf("%s/loopframe-step#loop%d.%s%s", g.fnLabel(), li.ord, sym(key), esuf),
 			implies(edge, g.frameFact(key, g.get(g.st, key), g.get(g.entry, key), g.fnModLocs(), true)), nil, "loop frame: "+modsText(g.fc), u.Instrs[len(u.Instrs)-1].Pos())
 	}
 	// decreases
@@ -1163,7 +1175,7 @@ func (g *Gen) backEdge(u, h *ssa.BasicBlock) {
 			g.errorf("%s: loop %d decreases: %v", g.fnLabel(), li.ord, err1)
 			continue
 		}
-		g.oblige("decreases", fmtf("%s/decreases#loop%d.%d", g.fnLabel(), li.ord, k), implies(edge, and(app(">=", t0, "0"), app("<", t1, t0))), c.Props, c.Text, u.Instrs[len(u.Instrs)-1].Pos())
+		g.oblige("decreases", fmtf("%s/decreases#loop%d.%d%s", g.fnLabel(), li.ord, k, esuf), implies(edge, and(app(">=", t0, "0"), app("<", t1, t0))), c.Props, c.Text, u.Instrs[len(u.Instrs)-1].Pos())
 	}
 }
 
